@@ -104,7 +104,7 @@ def run(ctx):
             from pyfatfs.DosDateTime import DosDateTime
             d = DosDateTime(*tm[:6])
             ctx.traces += 1
-            if r1 != f"ok {d.serialize_date()}" or r2 != f"ok {d.serialize_time()}":
+            if r1 is not None and (r1 != f"ok {d.serialize_date()}" or r2 != f"ok {d.serialize_time()}"):
                 ctx.tie_break("Gen.serialize_* vs DosDateTime", dict(t=t))
     finally:
         m.close()
